@@ -4,8 +4,7 @@
   Safety (prefix / EOF honesty / errors surface) is proved for all schedules of the two-endpoint
   system of Model/Pair.lean, whose wire may drop, delay, reorder *and duplicate* arbitrarily.
   Liveness is false on the faithful model: the full statement is `C06_Live_Statement`, refuted by eight
-  witnesses (F-C06-1 … -8); seven of them complete on the model with their repair flag set, F-C06-4 (no
-  zero-window probe) has no small repair.
+  witnesses (F-C06-1 … -8); all eight complete on the model with their repair flag set.
   Liveness is proved — for any amount of data and any configuration with `LiveWF` — on a network that
   loses nothing and delivers in order with a round trip below `retx_threshold` ticks (`C06_live_lossless`, a ranking argument over
   rounds; Proofs/Live.lean); what separates it from the full statement is listed at `C06_partial`.
@@ -744,7 +743,8 @@ example :
     Together with `C06_live_lossless` (global ranking argument over rounds, any amount of data, on
     the two-endpoint system with `fixWinUpdate`) this is what is proved of liveness. Still missing
     for the full statement `C06_Live_Statement`, which cannot hold on the faithful model (witnesses
-    above) nor on the committed tree (F-C06-4, F-C06-8 open): (1) any loss, duplication or
+    above); on the committed tree no counterexample is known any more (F-C06-4 and F-C06-8 are
+    repaired) but it is not proved: (1) any loss, duplication or
     reordering — the ranking argument is for a wire that delivers every segment of a round, in
     order, within fewer than `retx_threshold` egress ticks (so `check_retx` only counts, never
     rewinds; with losses below the budget the argument needs SND.MAX, see F-C06-8); (2) readers that do not drain
